@@ -372,7 +372,8 @@ Legal(cfg, cmd) ==
        [] cmd.c = "LIST" -> /\ cmd.pats # <<>> /\ \A i \in DOMAIN cmd.pats : cmd.pats[i] # <<>>
                             /\ Len(cmd.pats) = 1          \* Client.List takes one pattern
                             /\ (cmd.lsel.rec => cmd.lsel.sub)   \* RFC 5258 section 3.1
-                            /\ ((cmd.lsel.sub \/ cmd.lsel.remote \/ cmd.lret.sub \/ cmd.lret.children) => a.listextended)
+                            \* (selection and return options are not tied to an advertisement here: the server
+                            \* implements the extended syntax whatever it advertises, and the client API does not check)
                             /\ (cmd.lst.on => a.liststatus /\ a.listextended /\ AnySt(cmd.lst.st) /\ StAdvertised(a, cmd.lst.st))
                             /\ (~cmd.lst.on => cmd.lst.st = NoSt)
        [] cmd.c = "STATUS" -> AnySt(cmd.st) /\ StAdvertised(a, cmd.st)
@@ -639,8 +640,9 @@ ListCases(a) ==
   {L(sEmpty, Pats[i], NoSel, NoLRet, NoLSt) : i \in Idx(Pats)}
   \cup {L(Mboxes[i], <<42>>, NoSel, NoLRet, NoLSt) : i \in Idx(Mboxes)}
   \cup {L(Mboxes[i], Nth(Pats, i + 2), NoSel, NoLRet, NoLSt) : i \in Idx(Mboxes)}
+  \cup {L(sEmpty, <<37>>, s, r, NoLSt) : s \in SelSets, r \in LRetSets}
   \cup (IF a.listextended
-        THEN {L(sEmpty, <<37>>, s, r, NoLSt) : s \in SelSets, r \in LRetSets}
+        THEN {}
              \cup {L(sPlain, sWild, s, r, [on |-> TRUE, st |-> st]) : s \in {NoSel, [NoSel EXCEPT !.sub = TRUE]},
                      r \in (IF Thorough THEN {NoLRet, [NoLRet EXCEPT !.children = TRUE]} ELSE {NoLRet}), st \in StSets(a)}
              \cup {L(sUtf8, sAmp, [sub |-> TRUE, remote |-> TRUE, rec |-> TRUE], [sub |-> TRUE, children |-> TRUE],
